@@ -23,10 +23,10 @@ namespace FArr
 
 def letters (x : FArr α) : List Char := DimSet.letters x.dims
 
-/-- constructor: `_check_value_format` (shape of values = shape of dims). The dimension set is an
-existing object and is *not* re-validated by pydantic. -/
+/-- constructor: pydantic re-runs the `DimensionSet` validators on the passed set (distinct
+letters), then `_check_value_format` (shape of values = shape of dims) -/
 def mk? (dims : DimSet) (v : ND α) : Option (FArr α) :=
-  if v.shape = DimSet.shape dims then some ⟨dims, v⟩ else none
+  if (DimSet.letters dims).Nodup ∧ v.shape = DimSet.shape dims then some ⟨dims, v⟩ else none
 
 /-- a dimension given as letter/name string or as `Dimension` object -/
 inductive DimKey where
